@@ -245,11 +245,14 @@ type clientStream struct {
 	// done must be set to true before it is closed
 	rCh chan []byte
 
-	// rMu protects done, rErr, and tr
+	// rMu protects done, rErr, tr, and ctxErr
 	rMu  sync.RWMutex
 	done bool
 	rErr error
 	tr   HttpTrailer
+	// ctxErr is set once RecvMsg has reported that the context ended; every
+	// later RecvMsg reports the same, even if the reply has meanwhile arrived
+	ctxErr error
 
 	// wMu protects w and wErr
 	wMu  sync.Mutex
@@ -348,14 +351,31 @@ func (cs *clientStream) SendMsg(m interface{}) error {
 	return cs.wErr
 }
 
+// recvContextError records and returns the status for a context that ended
+// while (or before) a message was being received.
+func (cs *clientStream) recvContextError() error {
+	cs.rMu.Lock()
+	defer cs.rMu.Unlock()
+	if cs.ctxErr == nil {
+		cs.ctxErr = statusFromContextError(cs.ctx.Err())
+	}
+	return cs.ctxErr
+}
+
 func (cs *clientStream) RecvMsg(m interface{}) error {
+	cs.rMu.RLock()
+	ctxErr := cs.ctxErr
+	cs.rMu.RUnlock()
+	if ctxErr != nil {
+		return ctxErr
+	}
 	if done, err := cs.readErrorIfDone(); done {
 		return err
 	}
 
 	select {
 	case <-cs.ctx.Done():
-		return statusFromContextError(cs.ctx.Err())
+		return cs.recvContextError()
 	case msg, ok := <-cs.rCh:
 		if !ok {
 			done, err := cs.readErrorIfDone()
@@ -377,7 +397,7 @@ func (cs *clientStream) RecvMsg(m interface{}) error {
 			// it's available for a subsequent call to Trailer)
 			select {
 			case <-cs.ctx.Done():
-				return statusFromContextError(cs.ctx.Err())
+				return cs.recvContextError()
 			case _, ok := <-cs.rCh:
 				if ok {
 					// server tried to send >1 message!
